@@ -504,6 +504,14 @@ def _mk_uf(n):
                 return SReal(z3.RealVal(0))
         if c is not None and c == 1 and n == "log":
             return SReal(z3.RealVal(0))
+        # exact inverse-function identities on the domain of the inner function
+        if z3.is_app(e) and e.decl().kind() == z3.Z3_OP_UNINTERPRETED and e.num_args() == 1:
+            inner, t = e.decl().name(), e.arg(0)
+            if (n, inner) in (("cos", "arccos"), ("sin", "arcsin"), ("tan", "arctan"), ("exp", "log"),
+                              ("sinh", "arcsinh"), ("tanh", "arctanh")):
+                return SReal(t)
+            if (n, inner) in (("sin", "arccos"), ("cos", "arcsin")):
+                return SReal(sqrt_term(1 - t * t))
         return SReal(UF[n](e))
 
     f.__name__ = n
